@@ -16,10 +16,24 @@ import (
 var (
 	jsonNumberType   = reflect.TypeOf(json.Number(""))
 	typeAddr         *runtime.TypeAddr
-	cachedDecoderMap unsafe.Pointer // map[uintptr]decoder
-	cachedDecoder    []Decoder
+	cachedDecoderMap unsafe.Pointer   // map[uintptr]decoder
+	cachedDecoder    []unsafe.Pointer // *Decoder, read and written atomically
 	initOnce         sync.Once
 )
+
+// A Decoder is a two-word interface value; a plain store of it is not atomic, and a goroutine
+// reading the slot while another one publishes could see a half-written value.  The table
+// therefore holds a pointer to the value.
+func loadCachedDecoder(index uintptr) Decoder {
+	if p := (*Decoder)(atomic.LoadPointer(&cachedDecoder[index])); p != nil {
+		return *p
+	}
+	return nil
+}
+
+func storeCachedDecoder(index uintptr, dec Decoder) {
+	atomic.StorePointer(&cachedDecoder[index], unsafe.Pointer(&dec))
+}
 
 func initDecoder() {
 	initOnce.Do(func() {
@@ -27,7 +41,7 @@ func initDecoder() {
 		if typeAddr == nil {
 			typeAddr = &runtime.TypeAddr{}
 		}
-		cachedDecoder = make([]Decoder, typeAddr.AddrRange>>typeAddr.AddrShift+1)
+		cachedDecoder = make([]unsafe.Pointer, typeAddr.AddrRange>>typeAddr.AddrShift+1)
 	})
 }
 
